@@ -20,7 +20,7 @@ func init() {
 }
 
 func rulesC06(c *Ctx, r *Report) {
-	r.explain("Decides: (FD1-FD4) every File/FileHeader function passes its path to gostuff aio.Open (the suffix-driven opener), yields the open error, and on success cannot reach its exit without ranging over the same package's Reader/ReaderHeader applied to the opened stream, passing every (item, error) pair through unchanged; (A6) the io.Reader given to a decoder entry flows only into bufio.NewReader/NewReaderSize/NewScanner/csv.NewReader (through constructors, struct fields and closures) and nothing in the codec packages calls Read on an io.Reader itself; (A6-SCHED) nothing in the codec packages consults bufio.Reader.Buffered — how much is buffered depends on the read schedule; (SCAN-ALIAS) no view into a bufio buffer (Scanner.Bytes, ReadSlice, ReadLine, Peek) reaches a record without a copy — when the buffer is refilled depends on the read schedule; (G5) CR is recognised wherever LF is: every group of byte constants an input byte is compared with that contains '\\n' contains '\\r' (fasta, newick), fastq keeps bufio.ScanLines, sam/bed strip exactly \"\\n\" then \"\\r\" from a ReadString('\\n') line before any other use. Not decided: that bufio/gzip reassemble tokens across reads (trusted), equality of the item sequences. Added rules: (FD2) an io.EOF from aio.Open is an open failure; (NIL-HANDLE) the opened file is touched only behind err == nil; stale buffer views after a later read. (LAYER) no decompressor or transcoder is constructed in the codec packages: File and Reader cannot differ by what the content looks like.")
+	r.explain("Decides: (FD1-FD4) every File/FileHeader function passes its path to gostuff aio.Open (the suffix-driven opener), yields the open error, and on success cannot reach its exit without ranging over the same package's Reader/ReaderHeader applied to the opened stream, passing every (item, error) pair through unchanged; (A6) the io.Reader given to a decoder entry flows only into bufio.NewReader/NewReaderSize/NewScanner/csv.NewReader (through constructors, struct fields and closures) and nothing in the codec packages calls Read on an io.Reader itself; (A6-SCHED) nothing in the codec packages consults bufio.Reader.Buffered — how much is buffered depends on the read schedule; (SCAN-ALIAS) no view into a bufio buffer (Scanner.Bytes, ReadSlice, ReadLine, Peek) reaches a record without a copy — when the buffer is refilled depends on the read schedule; (G5) CR is recognised wherever LF is: every group of byte constants an input byte is compared with that contains '\\n' contains '\\r' (fasta, newick), fastq keeps bufio.ScanLines, sam/bed strip exactly \"\\n\" then \"\\r\" from a ReadString('\\n') line before any other use. Not decided: that bufio/gzip reassemble tokens across reads (trusted), equality of the item sequences. Added rules: (FD2) an io.EOF from aio.Open is an open failure; (NIL-HANDLE) the opened file is touched only behind err == nil; stale buffer views after a later read. (LAYER) no decompressor or transcoder is constructed in the codec packages: File and Reader cannot differ by what the content looks like. FD1 additionally: the path parameter is never assigned or handed out by address before it is opened.")
 	r.assume("bufio.Reader, bufio.Scanner, gzip readers deliver the same byte sequence regardless of how the underlying reader chunks it; aio.Open chooses decompression by file suffix")
 	rulesFileDelegation(c, r)
 	rulesReaderEntry(c, r)
